@@ -458,7 +458,15 @@ VoteDurableAtDeath ==
         (node'[n].disk.term = node[n].term => node'[n].disk.votedFor = node[n].votedFor)
 (* C17: requests to enable a lower version are rejected: the enabled version of a running node never goes down *)
 VersionNeverLowered == \A n \in Nodes : BothLive(n) => node'[n].ver >= node[n].ver
+(* C19 (and the book-keeping C02 rests on): a call with a callback that a running node holds - in its queue, among the waiters *)
+(* for a commit, among the waiters for the leader's reply - stays there until its callback fires: no call is forgotten         *)
+HeldCids(s) == {s.queue[k].cb.cid : k \in {k2 \in 1..Len(s.queue) : s.queue[k2].cb.k = "cb"}}
+          \cup {s.wc[k].cb.cid : k \in {k2 \in 1..Len(s.wc) : s.wc[k2].cb.k = "cb"}}
+          \cup {s.wr[k].cb.cid : k \in {k2 \in 1..Len(s.wr) : s.wr[k2].cb.k = "cb"}}
+FiredNow(c) == c \in DOMAIN cbs' /\ (c \notin DOMAIN cbs \/ Len(cbs'[c]) > Len(cbs[c]))
+NoCallForgotten == \A n \in Nodes : BothLive(n) => \A c \in HeldCids(node[n]) : c \in HeldCids(node'[n]) \/ FiredNow(c)
 StepViolations ==
+     (IF NoCallForgotten THEN {} ELSE {"C19.NoCallForgotten"}) \cup
      (IF VersionNeverLowered THEN {} ELSE {"C17.VersionNeverLowered"}) \cup
      (IF VoteSurvives THEN {} ELSE {"C07.VoteSurvives"}) \cup
      (IF VoteDurableAtDeath THEN {} ELSE {"C07.VoteDurableAtDeath"}) \cup
